@@ -269,6 +269,23 @@ let () =
          finish kind (check_put cd hd fl (str reqpath) (str data) (outcome_of ret)
                         (cres_of (function [v] -> view_of v | _ -> raise (Parse_error "put result")) res)
                         (match recv with A "n" -> None | L [p; d] -> Some (str p, str d) | _ -> raise (Parse_error "received"))) "put"
+       | "putseq", _, obs when List.exists (function L (A "panic" :: _) -> true | _ -> false) obs ->
+         bump "panic"; verdict ~agree:false ~spec:false ~kf:"-" ~detail:"PANIC in the implementation (put history)"
+       | "putseq", [reqpath; pre; L steps; tab; htab], obs ->
+         let cd = codecs_of tab and hd = codecs_of htab in
+         note_nontrivial (show (List.hd sx));
+         bump (Printf.sprintf "putseq_len_%d_pre_%s" (List.length steps) (atom pre));
+         let steps = List.map (function L [d; ret] -> (str d, outcome_of ret) | _ -> raise (Parse_error "put step")) steps in
+         let obs = List.map (function
+             | L [res; recv] ->
+               (cres_of (function [v] -> view_of v | _ -> raise (Parse_error "put result")) res,
+                (match recv with A "n" -> None | L [p; d] -> Some (str p, str d) | _ -> raise (Parse_error "received")))
+             | _ -> raise (Parse_error "put step observation")) obs in
+         List.iter (fun (_, ret) -> match ret with
+             | Found o -> bump (if string_of_chars o.o_path = string_of_chars (str reqpath) then "putseq_ret_same_path"
+                                else if o.o_path = [] then "putseq_ret_no_path" else "putseq_ret_other_path")
+             | _ -> bump "putseq_ret_failure") steps;
+         finish kind (check_putseq cd hd fl (str reqpath) steps obs) "putseq"
        | "vdoc", [call; reqpath; d1; d2; tab], [t1; r1; t2; r2] ->
          let cd = codecs_of tab and call = call_of call in
          note_nontrivial (show (List.hd sx));
